@@ -61,6 +61,125 @@ static PARKCV: Condvar = Condvar::new();
 static DELAY_US: AtomicU64 = AtomicU64::new(0);
 static DELAY_RNG: AtomicU64 = AtomicU64::new(0x9E3779B9);
 
+// ---------------------------------------------------------------------------------------
+// Deterministic scheduler for the `sched` mode: controlled threads park at their control points
+// (hook points, gated system calls, operation boundaries); the controller releases one thread for
+// one step at a time, following a behaviour TLC generated from BitcaskConc.tla.
+
+#[derive(Clone, Default)]
+struct TState {
+    at: String, // "" = running, otherwise the control point the thread is parked at
+    release: bool,
+    done: bool,
+    first_create_pending: bool, // merger: park at the first create of a merge only
+}
+static SCHED: Mutex<Vec<TState>> = Mutex::new(Vec::new());
+static SCHEDCV: Condvar = Condvar::new();
+static SCHED_ON: AtomicBool = AtomicBool::new(false);
+thread_local! {
+    static ROLE: std::cell::Cell<Option<usize>> = const { std::cell::Cell::new(None) };
+}
+const ROLE_W: usize = 0;
+const ROLE_M: usize = 1;
+// readers are 2, 3, ...
+
+/// park the calling (controlled) thread at `label` until the controller releases it
+fn park(label: &str) {
+    let Some(role) = ROLE.with(|r| r.get()) else { return };
+    if !SCHED_ON.load(Ordering::SeqCst) {
+        return;
+    }
+    let mut g = SCHED.lock().unwrap();
+    g[role].at = label.to_string();
+    g[role].release = false;
+    SCHEDCV.notify_all();
+    while !g[role].release && SCHED_ON.load(Ordering::SeqCst) {
+        let (g2, _) = SCHEDCV.wait_timeout(g, Duration::from_millis(50)).unwrap();
+        g = g2;
+    }
+    g[role].at.clear();
+    SCHEDCV.notify_all();
+}
+
+fn sched_hook(name: &'static str) {
+    let Some(role) = ROLE.with(|r| r.get()) else { return };
+    let stop = match role {
+        ROLE_W => matches!(name, "put.publishing" | "del.publishing"),
+        ROLE_M => name == "merge.copied" || name == "merge.unlinking",
+        _ => matches!(name, "get.popped" | "get.looked_up" | "reader.mapped"),
+    };
+    if stop {
+        park(name);
+    }
+}
+
+fn sched_syscall(kind: &'static str, file: &str) {
+    let Some(role) = ROLE.with(|r| r.get()) else { return };
+    if !SCHED_ON.load(Ordering::SeqCst) {
+        return;
+    }
+    match role {
+        ROLE_W if kind == "write" && file.ends_with(".data") => park("sys:write"),
+        ROLE_M if kind == "write" && file.ends_with(".hint") => park("sys:hintwrite"),
+        ROLE_M if kind == "create" => {
+            let first = {
+                let mut g = SCHED.lock().unwrap();
+                std::mem::replace(&mut g[ROLE_M].first_create_pending, false)
+            };
+            if first {
+                park("sys:create");
+            }
+        }
+        _ => {}
+    }
+}
+
+/// release `role` for one step; returns where it parked next ("done", a label, or "blocked")
+fn step(role: usize, expect: &[&str], timeout: Duration) -> String {
+    let mut g = SCHED.lock().unwrap();
+    // the thread must be parked at a compatible point
+    let t0 = Instant::now();
+    while g[role].at.is_empty() && !g[role].done {
+        if t0.elapsed() > timeout {
+            return "not-parked".into();
+        }
+        let (g2, _) = SCHEDCV.wait_timeout(g, Duration::from_millis(5)).unwrap();
+        g = g2;
+    }
+    if g[role].done {
+        return "already-done".into();
+    }
+    if !expect.iter().any(|e| g[role].at == *e || (e.ends_with('*') && g[role].at.ends_with(&e[1..]))) {
+        return format!("mismatch:{}", g[role].at);
+    }
+    g[role].release = true;
+    SCHEDCV.notify_all();
+    // wait until it has left the point ...
+    let t0 = Instant::now();
+    while !g[role].at.is_empty() && g[role].release {
+        let (g2, _) = SCHEDCV.wait_timeout(g, Duration::from_millis(5)).unwrap();
+        g = g2;
+        if t0.elapsed() > timeout {
+            break;
+        }
+    }
+    // ... and parked again (or finished)
+    let t0 = Instant::now();
+    loop {
+        if g[role].done {
+            return "done".into();
+        }
+        if !g[role].at.is_empty() && !g[role].release {
+            return g[role].at.clone();
+        }
+        if t0.elapsed() > timeout {
+            return "blocked".into();
+        }
+        let (g2, _) = SCHEDCV.wait_timeout(g, Duration::from_millis(5)).unwrap();
+        g = g2;
+    }
+}
+
 fn now_ms() -> u64 {
     T0.lock().unwrap().map(|t| t.elapsed().as_millis() as u64).unwrap_or(0)
 }
@@ -74,6 +193,7 @@ fn points(name: &str) -> Vec<u64> {
 
 fn install_hooks() {
     bitcask::verif::set_callback(Some(Arc::new(|name, _fields| {
+        sched_hook(name);
         if matches!(name, "merge.selected" | "bg.merge.woke" | "bg.merge.triggered" | "bg.sync.woke" | "bg.exit") {
             let t = now_ms();
             let mut g = POINTS.lock().unwrap();
@@ -774,6 +894,217 @@ fn conc_mode(inputs: &[Value], seed: u64, si: usize, sn: usize, out: &mut TraceO
     n
 }
 
+// ---------------------------------------------------------------------------------------
+// sched (C04): replay TLC-generated interleavings of BitcaskConc.tla
+
+fn sched_mode(inputs: &[Value], _seed: u64, si: usize, sn: usize, out: &mut TraceOut, pend: &Pending) -> u64 {
+    let mut n = 0;
+    for (i, inp) in inputs.iter().enumerate() {
+        if i % sn != si {
+            continue;
+        }
+        pend.set(&json!({"ev": "sched", "input": {"steps": inp["steps"].as_array().map(|a| a.len())}, "phase": "run"}));
+        let steps = inp["steps"].as_array().cloned().unwrap_or_default();
+        let pool = inp["pool"].as_u64().unwrap_or(1) as usize;
+        // thread programs from the schedule
+        let mut wops: Vec<(String, String)> = vec![];
+        let mut rkeys: BTreeMap<String, Vec<String>> = BTreeMap::new();
+        let mut merges = 0usize;
+        for s in &steps {
+            let (t, a) = (s["t"].as_str().unwrap_or(""), s["a"].as_str().unwrap_or(""));
+            match (t, a) {
+                ("w", "start") => wops.push((s["k"].as_str().unwrap_or("").into(), s["v"].as_str().unwrap_or("").into())),
+                ("m", "start") => merges += 1,
+                (r, "pop") if r.starts_with('r') => rkeys.entry(r.to_string()).or_default().push(s["k"].as_str().unwrap_or("").into()),
+                _ => {}
+            }
+        }
+        let rnames: Vec<String> = rkeys.keys().cloned().collect();
+        let role_of = |t: &str| -> usize {
+            match t {
+                "w" => ROLE_W,
+                "m" => ROLE_M,
+                r => 2 + rnames.iter().position(|x| x == r).unwrap_or(0),
+            }
+        };
+        let sc = Scratch::new("sched");
+        let dir = sc.path().to_path_buf();
+        let cfg = json!({"concurrency": pool, "readers_cache_size": 4, "max_file_size": inp["max_file"].as_u64().unwrap_or(9100),
+                         "merge": {"thresholds": {"fragmentation": 0.0, "dead_bytes": 0, "small_file": 1_000_000_000u64}}});
+        shim::start(&dir, false);
+        let kv = make_config(&dir, &cfg).open().expect("open");
+        let h = kv.get_handle();
+        *SCHED.lock().unwrap() = vec![TState::default(); 2 + rnames.len()];
+        SCHED_ON.store(true, Ordering::SeqCst);
+        shim::set_syscall_gate(Some(sched_syscall));
+        let hseq = Arc::new(AtomicU64::new(0));
+        let results: Arc<Mutex<Vec<Value>>> = Arc::new(Mutex::new(vec![]));
+        let mut ths = vec![];
+        // writer
+        {
+            let (h2, hseq, results) = (h.clone(), hseq.clone(), results.clone());
+            ths.push(std::thread::spawn(move || {
+                ROLE.with(|r| r.set(Some(ROLE_W)));
+                for (oi, (k, v)) in wops.iter().enumerate() {
+                    park("opstart");
+                    let inv = hseq.fetch_add(1, Ordering::SeqCst);
+                    let (op, vname, res) = if v == "none" {
+                        let r = match std::panic::catch_unwind(std::panic::AssertUnwindSafe(|| h2.del(Bytes::from(k.clone())))) {
+                            Ok(Ok(true)) => "1".to_string(),
+                            Ok(Ok(false)) => "0".into(),
+                            Ok(Err(e)) => format!("err:{e}"),
+                            Err(_) => "panic".into(),
+                        };
+                        ("del", "-".to_string(), r)
+                    } else {
+                        // unique values: small ones by text, large ones by length
+                        let (vname, bytes) = if v == "vb" {
+                            let len = 9000 + oi;
+                            (format!("big:{len}:B"), vec![b'B'; len])
+                        } else {
+                            let t = format!("w{oi}");
+                            (t.clone(), t.into_bytes())
+                        };
+                        let r = match std::panic::catch_unwind(std::panic::AssertUnwindSafe(|| h2.set(Bytes::from(k.clone()), Bytes::from(bytes)))) {
+                            Ok(Ok(())) => "OK".to_string(),
+                            Ok(Err(e)) => format!("err:{e}"),
+                            Err(_) => "panic".into(),
+                        };
+                        ("set", vname, r)
+                    };
+                    let ret = hseq.fetch_add(1, Ordering::SeqCst);
+                    results.lock().unwrap().push(json!({"c": 0, "op": op, "k": k, "v": vname, "inv": inv, "ret": ret, "res": res, "ending": "ok"}));
+                }
+                let mut g = SCHED.lock().unwrap();
+                g[ROLE_W].done = true;
+                SCHEDCV.notify_all();
+            }));
+        }
+        // merger
+        {
+            let h2 = h.clone();
+            ths.push(std::thread::spawn(move || {
+                ROLE.with(|r| r.set(Some(ROLE_M)));
+                for _ in 0..merges {
+                    park("opstart");
+                    SCHED.lock().unwrap()[ROLE_M].first_create_pending = true;
+                    let _ = std::panic::catch_unwind(std::panic::AssertUnwindSafe(|| h2.verif_merge()));
+                }
+                let mut g = SCHED.lock().unwrap();
+                g[ROLE_M].done = true;
+                SCHEDCV.notify_all();
+            }));
+        }
+        // readers
+        for (ri, rn) in rnames.iter().enumerate() {
+            let (h2, hseq, results, keys) = (h.clone(), hseq.clone(), results.clone(), rkeys[rn].clone());
+            ths.push(std::thread::spawn(move || {
+                ROLE.with(|r| r.set(Some(2 + ri)));
+                for k in keys {
+                    park("opstart");
+                    let inv = hseq.fetch_add(1, Ordering::SeqCst);
+                    let res = get_res(&h2, k.as_bytes());
+                    let ret = hseq.fetch_add(1, Ordering::SeqCst);
+                    results.lock().unwrap().push(json!({"c": 1 + ri, "op": "get", "k": k, "v": "-", "inv": inv, "ret": ret, "res": res, "ending": "ok"}));
+                }
+                let mut g = SCHED.lock().unwrap();
+                g[2 + ri].done = true;
+                SCHEDCV.notify_all();
+            }));
+        }
+        // follow the schedule
+        let tmo = Duration::from_millis(250);
+        let mut followed = 0usize;
+        let mut diverged: Vec<Value> = vec![];
+        for (si2, s) in steps.iter().enumerate() {
+            let (t, a) = (s["t"].as_str().unwrap_or(""), s["a"].as_str().unwrap_or(""));
+            let role = role_of(t);
+            let expect: &[&str] = match (t, a) {
+                ("w", "start") | ("m", "start") => &["opstart"],
+                ("w", "write") | ("w", "lastwrite") => &["sys:write"],
+                ("w", "publish") => &["put.publishing", "del.publishing"],
+                ("m", "copy") => &["sys:create"],
+                ("m", "repoint") => &["merge.copied"],
+                ("m", "hintnext") => &["sys:hintwrite"],
+                ("m", "finish") => &["sys:create", "merge.unlinking"],
+                (_, "pop") => &["opstart"],
+                (_, "lookup") => &["get.popped"],
+                (_, "map") => &["get.looked_up"],
+                (_, "slice") => &["reader.mapped"],
+                _ => &[],
+            };
+            let mut r = step(role, expect, tmo);
+            if (t, a) == ("m", "finish") {
+                // an empty merge goes from its first create straight to the unlink phase: finish it
+                let mut guard = 0;
+                while r == "merge.unlinking" && guard < 3 {
+                    r = step(role, &["merge.unlinking"], tmo);
+                    guard += 1;
+                }
+            }
+            if r.starts_with("mismatch") || r == "not-parked" || r == "already-done" || r == "blocked" {
+                if diverged.len() < 5 {
+                    diverged.push(json!({"at": si2, "thread": t, "action": a, "got": r}));
+                }
+            } else {
+                followed += 1;
+            }
+        }
+        // let everything run to its end
+        SCHED_ON.store(false, Ordering::SeqCst);
+        {
+            let mut g = SCHED.lock().unwrap();
+            for t in g.iter_mut() {
+                t.release = true;
+            }
+            SCHEDCV.notify_all();
+        }
+        let t0 = Instant::now();
+        let mut hung = false;
+        for t in ths {
+            while !t.is_finished() {
+                if t0.elapsed() > Duration::from_secs(10) {
+                    hung = true;
+                    break;
+                }
+                std::thread::sleep(Duration::from_millis(2));
+            }
+            if t.is_finished() {
+                let _ = t.join();
+            }
+        }
+        shim::set_syscall_gate(None);
+        shim::stop();
+        ROLE.with(|r| r.set(None));
+        let ops = results.lock().unwrap().clone();
+        let bad: Vec<Value> = ops.iter().filter(|o| { let r = o["res"].as_str().unwrap_or(""); r == "panic" || r.starts_with("err:") }).cloned().collect();
+        // every reader must still be able to read afterwards
+        let mut fin = vec![];
+        if !hung {
+            for k in ["k1", "k2"] {
+                let (h3, kb) = (h.clone(), k.as_bytes().to_vec());
+                fin.push(json!({"k": k, "res": with_watchdog(move || get_res(&h3, &kb), Duration::from_secs(5))}));
+            }
+        }
+        pend.clear();
+        out.emit(&json!({"ev": "conc", "kind": "sched", "steps": steps.len(), "followed": followed, "diverged": diverged, "hung": hung,
+                         "bad_ops": bad, "final": fin}));
+        if !hung {
+            out.emit(&json!({"ev": "lin", "run": i, "window": 0, "clients": 1 + rnames.len(),
+                             "init": [{"k": "k1", "v": "none"}, {"k": "k2", "v": "none"}], "ops": ops}));
+        }
+        n += 1;
+        if hung {
+            // threads of this scenario are stuck inside the store: do not reuse the process
+            let l = 0;
+            let _ = l;
+            break;
+        }
+        drop(kv);
+    }
+    n
+}
+
 fn main() {
     bcverif::shim::init();
     quiet_panics();
@@ -819,6 +1150,7 @@ fn main() {
         "close" => close_mode(&inputs, si, sn, &mut out, &pend),
         "bg" => bg_mode(&inputs, si, sn, &mut out, &pend),
         "conc" => conc_mode(&inputs, seed, si, sn, &mut out, &pend),
+        "sched" => sched_mode(&inputs, seed, si, sn, &mut out, &pend),
         m => panic!("mode {m}"),
     };
     let l = out.finish();
